@@ -255,22 +255,22 @@ theorem from_first_candidate (cfg : Config) (env : Env) (ws : List Str) (hrep : 
 plain presentation settings, the printed text is accepted by the regex parser and the compiled pattern
 matches a string of scalar values in full iff the string spells a word of the expression's symbol-level
 language (grapheme by grapheme, a shorthand-class token standing for any member of the class): printing and re-reading by the regex crate's syntax preserves the language -/
-theorem printing_preserves_language (cap : Bool) (e : Expr) (hwf : e.WF) (s : Str) (hs : ∀ c ∈ s, Scalar c) :
-    ∃ P, Spec.parse (fmtRegExp (cfgPlain cap) e) = some (⟨false, false⟩, P) ∧
+theorem printing_preserves_language (cap esc : Bool) (e : Expr) (hwf : e.WF) (s : Str) (hs : ∀ c ∈ s, Scalar c) :
+    ∃ P, Spec.parse (fmtRegExp (cfgPlain cap esc) e) = some (⟨false, false⟩, P) ∧
       (Spec.fullMatch false P s = true ↔ ∃ w, e.lang w ∧ atomsDen false (atomsOf w) s) :=
-  printed_accepts cap e hwf s hs
+  printed_accepts cap esc e hwf s hs
 
 /-- the same with the `(?i)` flag in front: the compiled pattern matches exactly the strings that spell a word of the
 expression up to simple case folding of each code point (the regex crate's table, generated) -/
-theorem printing_preserves_language_ci (cap : Bool) (e : Expr) (hwf : e.WF) (s : Str) (hs : ∀ c ∈ s, Scalar c) :
-    ∃ P, Spec.parse (ciPrefix true ++ fmtRegExp (cfgPlain cap) e) = some (⟨true, false⟩, P) ∧
+theorem printing_preserves_language_ci (cap esc : Bool) (e : Expr) (hwf : e.WF) (s : Str) (hs : ∀ c ∈ s, Scalar c) :
+    ∃ P, Spec.parse (ciPrefix true ++ fmtRegExp (cfgPlain cap esc) e) = some (⟨true, false⟩, P) ∧
       (Spec.fullMatch true P s = true ↔ ∃ w, e.lang w ∧ atomsDen true (atomsOf w) s) :=
-  printed_accepts_ci true cap e hwf s hs
+  printed_accepts_ci true cap esc e hwf s hs
 
 /-- the expression `Expression::from` returns for an acyclic automaton with plain labels is well-formed -/
-theorem elimination_result_wellformed (cap : Bool) (d : Dfa) (hd : LabelsBs d) (hdfs : DfsOK d d.dfs)
-    (hacyc : ∀ c w, Dfa.Path d c w c → w = []) : (Expr.ofDfa (cfgPlain cap) d).WF :=
-  ofDfa_wf cap d hd hdfs hacyc
+theorem elimination_result_wellformed (cap esc : Bool) (d : Dfa) (hd : LabelsBs d) (hdfs : DfsOK d d.dfs)
+    (hacyc : ∀ c w, Dfa.Path d c w c → w = []) : (Expr.ofDfa (cfgPlain cap esc) d).WF :=
+  ofDfa_wf cap esc d hd hdfs hacyc
 
 /-- and `Expression::from` returns that expression, or the empty literal when `b[0]` is `None` -/
 theorem ofDfa_is_b0 (cfg : Config) (d : Dfa) :
